@@ -18,7 +18,7 @@ MEM = machine.MEM_STD
 
 # (name, thumb, olen, word)
 ARM_MENU = [
-    ("MOV r0,#1", 0xE3A00001),
+    ("MOVS r0,#1", 0xE3B00001),           # carry operand taken from APSR.C at decode time
     ("ADDS r1,r1,r2", 0xE0911002),
     ("LDR r3,[r4,#1]", 0xE5943001),       # unaligned: rotate / fault depending on version and SCTLR
     ("STR r0,[r5]", 0xE5850000),
@@ -40,30 +40,57 @@ THUMB_MENU = [
     ("WFI", 16, 0xBF30),
     ("CBZ r0,+4", 16, 0xB100),
     ("PUSH {r0,lr}", 16, 0xB501),
+    ("CMP r0,r0", 16, 0x4280),             # sets C, so that later MOVS/ANDS see a different carry-in
 ]
 CONFIGS = [
     {},
     {"arch_version": 7, "have_security_ext": False},
     {"arch_version": 7, "memory_system_architecture": "VMSA", "have_virt_ext": True, "have_lpae": True},
     {"arch_version": 5},
+    # different reset values: ARM state on reset, high vectors, another VBAR
+    {"reset_values": {"SCTLR": "0b00000000000001010010000001111001", "VBAR": "0b00000000000000000001000000000000"}},
 ]
+
+
+def fresh_solo_traces():
+    """Solo traces computed by one FRESH interpreter process each (nothing created before them in that process): the
+    reference against which interleaved runs are compared, immune to process-wide state."""
+    import json
+    import os
+    import subprocess
+    import sys
+    from concurrent.futures import ThreadPoolExecutor
+    jobs = [(ci, pi) for ci in range(len(CONFIGS)) for pi in range(len(ISO_PROGS))]
+
+    def one(job):
+        ci, pi = job
+        out = subprocess.run([sys.executable, "-B", "-m", "armmc.checks.c20", "solo", str(ci), str(pi)],
+                             capture_output=True, cwd=os.path.dirname(os.path.dirname(os.path.dirname(__file__))),
+                             env=dict(os.environ, PYTHONHASHSEED="0"))
+        line = out.stdout.decode().strip().splitlines()[-1] if out.stdout.strip() else "null"
+        return job, json.loads(line)
+
+    with ThreadPoolExecutor(8) as ex:
+        return {"%d,%d" % j: t for j, t in ex.map(one, jobs)}
 
 
 def plan(tier):
     shards = []
+    fresh = fresh_solo_traces()
     L = 3
     for iset in ("arm", "thumb"):
         n = len(ARM_MENU) if iset == "arm" else len(THUMB_MENU)
         for first in range(n):
             shards.append(("snap", iset, first, L))
-    ninst = 2
+    shards.append(("order", "arm", None, None))
+    shards.append(("order", "thumb", None, None))
     for a in range(len(CONFIGS)):
         for b in range(len(CONFIGS)):
-            shards.append(("iso", (a, b), None, None))
+            shards.append(("iso", (a, b), fresh, None))
     if tier == "thorough":
         for a, b, c in itertools.product(range(len(CONFIGS)), repeat=3):
             if len({a, b, c}) >= 2:
-                shards.append(("iso", (a, b, c), None, None))
+                shards.append(("iso", (a, b, c), fresh, None))
     return {
         "shards": shards,
         "rule": "(a) all programs of length 1..3 over a %d-item ARM and a %d-item Thumb menu x every prefix point x "
@@ -82,7 +109,7 @@ def digest(snap):
     return hashlib.sha1(repr(snap).encode()).hexdigest()[:16]
 
 
-def setup_instance(cfg, thumb, program):
+def setup_instance(cfg, thumb, program, flags=0):
     """Construct + initialise one processor; the program (list of (olen, word)) is placed at CODE."""
     cpu = machine.new_cpu(memory_list=MEM, **cfg)
     cpu.take_reset()
@@ -90,7 +117,7 @@ def setup_instance(cfg, thumb, program):
     regs.sctlr.m = 0
     regs.sctlr.u = 0
     regs.sctlr.a = 0
-    regs.cpsr.value = 0x000001D3 | (0x20 if thumb else 0)
+    regs.cpsr.value = 0x000001D3 | (0x20 if thumb else 0) | (flags << 28)
     for n in range(13):
         regs.set(n, 0x10100 + 0x40 * n)
     regs.set(6, 0x10901)      # odd branch target
@@ -129,8 +156,10 @@ def run_shard(arg):
     res = Result()
     if kind == "snap":
         snap_shard(res, arg[1], arg[2], arg[3])
+    elif kind == "order":
+        order_shard(res, arg[1])
     else:
-        iso_shard(res, arg[1])
+        iso_shard(res, arg[1], arg[2])
     return res.as_dict()
 
 
@@ -191,6 +220,55 @@ def snap_shard(res, iset, first, L):
     res.sample({"iset": iset, "program": names_of(iset, progs[-1]), "prefix_points": len(progs[-1])})
 
 
+# ------------------------------------------------------------------------------------------------ (a')
+def order_shard(res, iset):
+    """Order independence across histories that a same-process comparison cannot see (e.g. a process-wide cache filled
+    by whichever program ran first): all programs of length <= 2 are executed on fresh instances in FORWARD order by
+    this process and in REVERSE order by a forked child that starts from the same process image; every program's trace
+    must be the same in both."""
+    import json
+    import os
+    thumb = iset == "thumb"
+    n = len(THUMB_MENU) if thumb else len(ARM_MENU)
+    progs = [(fl,) + p for p in ([(a,) for a in range(n)] + [(a, b) for a in range(n) for b in range(n)])
+             for fl in (0b0000, 0b0010, 0b1101)]
+
+    def traces(order):
+        out = {}
+        for fp in order:
+            fl, p = fp[0], fp[1:]
+            cpu, plan = setup_instance({}, thumb, prog_of(iset, p), fl)
+            out[repr(fp)] = [list(map(str, t)) for t in trace_steps(cpu, plan, len(p))]
+        return out
+
+    r, w = os.pipe()
+    pid = os.fork()
+    if pid == 0:
+        try:
+            os.close(r)
+            data = json.dumps(traces(list(reversed(progs)))).encode()
+            with os.fdopen(w, "wb") as f:
+                f.write(data)
+        finally:
+            os._exit(0)
+    os.close(w)
+    fwd = traces(progs)
+    with os.fdopen(r, "rb") as f:
+        rev = json.loads(f.read().decode() or "{}")
+    os.waitpid(pid, 0)
+    for p in progs:
+        res.cases += 1
+        res.transitions += len(p) - 1
+        res.add_state(hash((iset, p)))
+        res.outcome("order-independent")
+        if fwd[repr(p)] != rev.get(repr(p)):
+            res.fail("trace-depends-on-execution-order",
+                     "program %r with NZCV=%s: forward-order process gives %r, reverse-order process gives %r" % (
+                         names_of(iset, p[1:]), format(p[0], "04b"), fwd[repr(p)], rev.get(repr(p))),
+                     {"iset": iset, "program": list(p[1:]), "nzcv": p[0]})
+    res.sample({"order_check": iset, "programs": len(progs)})
+
+
 # ------------------------------------------------------------------------------------------------ (b)
 ISO_PROGS = [
     ("arm", (2, 7, 1)),        # unaligned LDR, MOV pc (version dependent), ADDS
@@ -208,7 +286,7 @@ def interleavings(counts):
     return sorted(set(itertools.permutations(ids)))
 
 
-def iso_shard(res, cfg_idx):
+def iso_shard(res, cfg_idx, fresh):
     k = len(cfg_idx)
     steps = 3 if k == 2 else 2
     cfgs = [CONFIGS[i] for i in cfg_idx]
@@ -220,6 +298,14 @@ def iso_shard(res, cfg_idx):
             iset, idxs = ISO_PROGS[pi]
             cpu, plan = setup_instance(CONFIGS[ci], iset == "thumb", prog_of(iset, idxs))
             solo[key] = trace_steps(cpu, plan, steps)
+            ref = fresh.get("%d,%d" % (ci, pi)) if fresh else None
+            res.cases += 1
+            if ref is not None and [list(map(str, t)) for t in solo[key]] != [list(map(str, t)) for t in
+                                                                            [(tuple(x[0]), x[1]) for x in ref][:steps]]:
+                res.fail("trace-differs-from-fresh-process",
+                         "config %r program %r: this process gives %r, a fresh interpreter gives %r" % (
+                             CONFIGS[ci], names_of(*ISO_PROGS[pi]), solo[key], ref[:steps]),
+                         {"config": ci, "program": pi})
         return solo[key]
 
     prog_choices = list(itertools.product(range(len(ISO_PROGS)), repeat=k)) if k == 2 else \
@@ -269,3 +355,17 @@ def replay(doc):
     if "schedule" in r:
         return "re-run: ./check C20 (shard iso %r); detail: %s" % (r["configs"], doc["detail"])
     return "re-run: ./check C20 (shard snap %s); detail: %s" % (r.get("iset"), doc["detail"])
+
+
+if __name__ == "__main__":
+    import json
+    import os
+    import sys
+    if len(sys.argv) == 4 and sys.argv[1] == "solo":
+        real = sys.stdout
+        sys.stdout = open(os.devnull, "w")
+        ci, pi = int(sys.argv[2]), int(sys.argv[3])
+        iset, idxs = ISO_PROGS[pi]
+        cpu, plan_ = setup_instance(CONFIGS[ci], iset == "thumb", prog_of(iset, idxs))
+        tr = trace_steps(cpu, plan_, 3)
+        real.write(json.dumps([[list(t[0]), t[1]] for t in tr]) + "\n")
